@@ -99,6 +99,12 @@ def _run(r, scratch, i):
     before = inventory.take(troot)
     log = os.path.join(d, "shim.log")
     env = shimlog.shim_env(log, [troot])
+    if mode is not None and r.random() < 0.15:
+        # the temporary directory cannot be used ($TMPDIR names a regular file): the run may fail, the tree stays as it is
+        notdir = os.path.join(d, "tmpdir-is-a-file")
+        with open(notdir, "w") as f:
+            f.write("x")
+        env["TMPDIR"] = notdir
     res, gargv = gm.run_group(g, sc["spec"]["roots"], troot, home, fmt=fmt, extra_args=extra_args, extra_env=env, timeout=120)
     modename = mode[0] if mode else "plain"
     witness = {"case": i, "mode": modename, "group_argv": [fsd(a) for a in gargv], "rc": res.rc, "stderr": res.err_text()[-2000:],
